@@ -265,6 +265,14 @@ class Scenario:
                  f'(\\E {y}: @{self.node(o[1])} # {z})')
             want = (t[0] & tt.var(n, nm.index(x))) | tt.exists(
                 t[1] ^ tt.var(n, nm.index(z)), n, [nm.index(y)])
+            if a2 & 1 and x != y:
+                # the substitution operator of the grammar (an exchange
+                # of two variables) around a sub-formula
+                s = (f'({s}) /\\ (\\S {x} / {y}, {y} / {x}: '
+                     f'(@{self.node(o[0])} \\/ ~ {y}))')
+                ix, iy = nm.index(x), nm.index(y)
+                want &= tt.rename(t[0] | (~tt.var(n, iy) & tt.full(n)),
+                                  n, {ix: iy, iy: ix})
             return [(m.add_expr(s), want)]
         if e == 'copy':
             if ar:
